@@ -142,3 +142,21 @@ def run_scenarios(seed, n, par=6):
             t["meta"]["scenario"] = sc
             out.append(t)
     return out, len(scs) - len(out)
+
+
+def validate_callbacks(traces):
+    """CallbacksTrace: the PrinterEventHandler contract on the same executions. Returns (clause counts, failures)."""
+    path = os.path.join(workdir(), "callbacks.json")
+    write_json(path, [{"ev": [{"k": e["k"], "name": e["name"], "text": e["text"], "flag": e["flag"], "idx": e["idx"], "bad": e["bad"]}
+                              for e in t["evcb"]]} for t in traces])
+    r = tlc.validate("CallbacksTrace", "SPECIFICATION Spec\n", path, tag="callbacks")
+    if r.errors or r.rc != 0:
+        raise flow.MachineryError("CallbacksTrace failed: %s\n%s" % (r.errors[:2], r.stdout[-1500:]))
+    counts, fails = {}, []
+    for t in r.tuples:
+        if t and t[0] == "D":
+            for c, n in t[3].items():
+                counts[c] = counts.get(c, 0) + n
+        elif t and t[0] == "F":
+            fails.append((t[1] - 1, t[2], t[3]))
+    return counts, fails
